@@ -275,11 +275,7 @@ func listSites(serviceDir string) ([]site, []edge, []capture, []fieldDecl, error
 								if writes[x] {
 									role = "w"
 								}
-								ts := strings.ReplaceAll(types.TypeString(obj.Type(), func(p *types.Package) string { return p.Name() }), " ", "")
-								if strings.HasPrefix(ts, "service.") {
-									ts = ts[8:]
-								}
-								ts = strings.ReplaceAll(ts, "*service.", "*")
+								ts := typeStr(obj.Type())
 								caps = append(caps, capture{Func: remoteName, Var: x.Name, Kind: kindOf(obj.Type()), Type: ts, Role: role,
 									Pos: fset.Position(x.Pos()).String(), obj: obj, lit: remote})
 							}
@@ -434,12 +430,40 @@ func syncCaller(info *types.Info, fun ast.Expr) bool {
 // fieldDecl: a field of one of the statically placed structs as declared in the current tree.
 type fieldDecl struct{ Struct, Field, Type string }
 
+// typeStr: the declared type of a field / captured variable, robust to renamings: package-qualified by package
+// name, without spaces, function types as func/<params>/<results>, and a named NON-struct type of package
+// service (a func or channel type given a name) replaced by what it stands for - so that renaming such a type, a
+// parameter or a package alias does not change what the field is.
 func typeStr(t types.Type) string {
-	if sig, ok := t.Underlying().(*types.Signature); ok { // parameter names are not part of what a field is
-		return fmt.Sprintf("func/%d/%d", sig.Params().Len(), sig.Results().Len())
+	switch x := t.(type) {
+	case *types.Pointer:
+		return "*" + typeStr(x.Elem())
+	case *types.Slice:
+		return "[]" + typeStr(x.Elem())
+	case *types.Array:
+		return fmt.Sprintf("[%d]%s", x.Len(), typeStr(x.Elem()))
+	case *types.Map:
+		return "map[" + typeStr(x.Key()) + "]" + typeStr(x.Elem())
+	case *types.Chan:
+		switch x.Dir() {
+		case types.SendOnly:
+			return "chan<-" + typeStr(x.Elem())
+		case types.RecvOnly:
+			return "<-chan" + typeStr(x.Elem())
+		}
+		return "chan" + typeStr(x.Elem())
+	case *types.Signature:
+		return fmt.Sprintf("func/%d/%d", x.Params().Len(), x.Results().Len())
+	case *types.Named:
+		if x.Obj().Pkg() != nil && x.Obj().Pkg().Name() == "service" {
+			switch x.Underlying().(type) {
+			case *types.Struct, *types.Interface:
+				return x.Obj().Name()
+			}
+			return typeStr(x.Underlying())
+		}
 	}
-	ts := strings.ReplaceAll(types.TypeString(t, func(p *types.Package) string { return p.Name() }), " ", "")
-	return strings.ReplaceAll(ts, "service.", "")
+	return strings.ReplaceAll(types.TypeString(t, func(p *types.Package) string { return p.Name() }), " ", "")
 }
 
 func structOfExpr(e ast.Expr) string {
